@@ -32,6 +32,8 @@ type ChaosCfg struct {
 	// weights
 	NoGov      bool // no param changes
 	NoEvidence bool
+	// NoUnstake: no node / application begin-unstake transactions (histories whose exported state can be imported)
+	NoUnstake  bool
 	Delegators bool // genesis nodes carry reward delegators whose accounts do not exist yet
 }
 
@@ -237,6 +239,9 @@ func (c *Chaos) genTx() {
 		}
 		c.add("node_edit", signer, MsgNodeStake(Key(k), c.chains(), stake, "https://e"+itoa(r.Intn(1000))+".example:443", out, dg), TxMeta{Target: AddrHex(k), Amount: stake})
 	case w < 52: // begin unstake
+		if c.Cfg.NoUnstake {
+			return
+		}
 		k := c.pick(c.nodeKeys)
 		signer := k
 		if o, ok := c.outputOf[k]; ok && r.Intn(2) == 0 {
@@ -268,6 +273,9 @@ func (c *Chaos) genTx() {
 		stake := int64(1_000_000 + r.Int63n(40_000_000))
 		c.add("app_edit", k, MsgAppStake(Key(k), c.chains(), stake), TxMeta{Target: AddrHex(k), Amount: stake})
 	case w < 79: // app unstake
+		if c.Cfg.NoUnstake {
+			return
+		}
 		k := c.pick(c.appKeys)
 		c.add("app_unstake", k, MsgAppUnstake(Addr(k)), TxMeta{Target: AddrHex(k)})
 	case w < 83: // app transfer to a fresh key
